@@ -281,6 +281,6 @@ def replay(case):
         ks = tuple(k) if isinstance(k, list) else (k,)
         a, b = warn_count(case["base"]), warn_count(case["text"])
         if a is None or b is None or b - a not in ks:
-            return [dict(key="warnings", msg="warning difference %r-%r != %d" % (b, a, k), case=case)]
+            return [dict(key="warnings", msg="warning difference %r-%r not in %r" % (b, a, ks), case=case)]
         return []
     return e1.replay_model_case(case, "routing")
